@@ -13,6 +13,7 @@ import json, os, copy
 from common import *
 
 K_OPT = "rejected-set-on-unset-option-stores-default"
+K_TTL = "reset-list-files-cache-ttl"
 K_RT_A = "runtime-printed-text-rejected"
 K_RT_B = "runtime-set-changes-other-options"
 K_RT_C = "runtime-size-display-truncated"
@@ -20,6 +21,10 @@ K_RT_C = "runtime-size-display-truncated"
 
 def decode(meta, e):
     T = lambda t: None if t == 0 else meta["texts"][t - 1]
+    if e["op"] == "rebuild":
+        return {"op": "rebuild", "via": e["via"], "ok": e["ok"], "differs": [[meta["keys"][j - 1], T(t)] for j, t in e["diff"]]}
+    if e["op"] == "reset":
+        return {"op": "reset", "key": meta["keys"][e["k"] - 1], "ok": e["ok"], "changed": [[meta["keys"][j - 1], T(t)] for j, t in e["ch"]]}
     d = {"op": e["op"], "key": meta["keys"][e["k"] - 1], "text": T(e["t"])}
     if e["op"] == "set":
         d.update(ok=e["ok"], changed=[[meta["keys"][j - 1], T(t)] for j, t in e["ch"]], plain=e["plain"], in_invalid_pool=e["inval"])
@@ -38,6 +43,18 @@ def run(ctx):
     summary, _ = run_harness(ctx, "vtext", ["c43", "--out", ctx.path("runs.ndjson"), "--meta", ctx.path("meta.json")], timeout=3000)
     if summary["keys_never_round_tripped"]:
         raise ToolError(f"keys never round-tripped: {summary['keys_never_round_tripped'][:5]}")
+    REQUIRED = ["ConfigOptions::set", "ConfigOptions::reset", "ConfigOptions::from_env", "ConfigOptions::from_string_hash_map",
+                "SessionConfig::options_mut().set", "SessionConfig::options_mut().reset", "SessionConfig::set_bool", "SessionConfig::set_u64", "SessionConfig::set_usize",
+                "SessionConfig::set(ScalarValue)", "SessionConfig::set_str", "SessionConfig::from_string_hash_map",
+                "SQL SET", "SQL RESET", "SQL SHOW", "SQL df_settings", "SQL df_settings (all rows)",
+                "TableOptions::set", "TableOptions::alter_with_string_hash_map"]
+    never = [p_ for p_ in REQUIRED if not summary["paths"].get(p_)]
+    if never:
+        raise ToolError(f"vacuity: front-end paths never exercised: {never}")
+    if summary["table_option_keys"] < 30 or summary["parquet_column_option_keys"] < 3:
+        raise ToolError("vacuity: table / per-column options were not discovered")
+    if summary["keys_reset_after_a_change"] < summary["option_keys"] // 2:
+        raise ToolError("vacuity: too few keys were RESET after a change")
     meta = json.load(open(ctx.path("meta.json")))
     runs = read_ndjson(ctx.path("runs.ndjson"))
     nreal = len(runs)
@@ -69,7 +86,7 @@ def run(ctx):
             raise ToolError(f"binding self-test: corrupted event {cr['expect']} of corrupted run {n} was not rejected")
     # 3. verdicts on the real runs
     rejected = accepted = 0
-    known = {K_OPT: 0, K_RT_A: 0, K_RT_B: 0, K_RT_C: 0}
+    known = {K_OPT: 0, K_RT_A: 0, K_RT_B: 0, K_RT_C: 0, K_TTL: 0}
     samples = []
     for ri, run_ in enumerate(runs):
         v = verdicts[ri + 1]
@@ -84,10 +101,12 @@ def run(ctx):
                 continue
             if i in rej:
                 rejected += 1
-                keyname = meta["keys"][e["k"] - 1]
+                keyname = meta["keys"][e["k"] - 1] if "k" in e else e.get("via", "")
                 changed_names = [meta["keys"][j - 1] for j, _ in e.get("ch", [])]
                 key = None
-                if keyname.startswith("datafusion.runtime.") and run_["fe"] == "sql" and e["op"] == "set":
+                if e["op"] == "reset" and keyname == "datafusion.runtime.list_files_cache_ttl" and e["ok"] and not e["ch"]:
+                    key = K_TTL               # RESET succeeds but the TTL stays
+                elif keyname.startswith("datafusion.runtime.") and run_["fe"] == "sql" and e["op"] == "set":
                     chk = {j for j, _ in e["ch"]}
                     if not e["ok"] and not e["ch"] and (e["k"], e["t"]) in seen:
                         key = K_RT_A          # a text the configuration printed for this variable is rejected
@@ -99,7 +118,7 @@ def run(ctx):
                     key = K_OPT
                 hist = [decode(meta, x) for x in run_["ev"][max(1, i - 6):i]]
                 p = report_violation(ctx, {"case": {"front_end": run_["fe"], "run_kind": run_["kind"], "run": ri, "event": i},
-                                           "observed": decode(meta, e), "model_value_before": (None if cfg.get(e["k"], 0) == 0 else meta["texts"][cfg[e["k"]] - 1]),
+                                           "observed": decode(meta, e), "model_value_before": (None if cfg.get(e.get("k"), 0) == 0 else meta["texts"][cfg[e["k"]] - 1]),
                                            "history_tail": hist,
                                            "oracle": "ConfigTrace.tla AcceptSet/AcceptShow: invalid => unchanged; printed text accepted and a fixpoint; Set(k, Show(k)) = identity; only k (and documented overrides) change; Show = model"},
                                      key=key)
@@ -109,7 +128,7 @@ def run(ctx):
                 accepted += 1
                 if len(samples) < 3 and e["op"] == "set" and e["ok"] and e["ch"]:
                     samples.append({"front_end": run_["fe"], "event": decode(meta, e)})
-            if e["op"] == "set":
+            if e["op"] in ("set", "reset"):
                 for j, t in e["ch"]:
                     cfg[j] = t
                     if t != 0:
@@ -135,5 +154,9 @@ def run(ctx):
         "a key's class is inferred from the text of its default value in entries(); options whose default prints nothing (None) are given candidate texts of every class",
         "datafusion.runtime.temp_directory is not observed (it shows lazily created random spill directories, not a settable text form)",
         "large integers are only driven through ConfigOptions/SessionConfig (not through a live SQL session, where they would size real allocations)",
-        "SessionConfig::set_str cannot report failure; its verdict falls back to options_mut().set",
+        "SessionConfig's typed setters and named builders unwrap errors: they are run on a copy and a panic counts as a rejected Set",
+        "extension options are driven through an extension namespace `verif` registered by the harness (extensions_options!); the listing prints extension keys without their namespace, the harness adds it",
+        "table options (csv / json / parquet, and the per-column parquet options the implementation accepts as `<option>::c1`) are driven through TableOptions::set with the format selected",
+        "RESET: after a successful RESET the option shows the text of the initial listing; a refused RESET must change nothing (extension and table options have no RESET)",
+        "rebuild events: the listing of a reached configuration is fed to from_string_hash_map / from_env / alter_with_string_hash_map and must produce the same listing (skipped while the documented umbrella flag and its sub-flags disagree)",
     ])
